@@ -261,6 +261,26 @@ def cone(vfile, seen=None):
     return seen
 
 
+def gen_needed(prop, mod):
+    """names of the generated parameter files (coq/Gen/<Name>.v) this property's judge and theorem files depend on: the
+    runner's GEN list plus every SR.Gen.* module in the dependency cone of Judge/J<prop>.v, Props/<prop>.v and the companion
+    theorem files - so that a model that starts using another generated file needs no bookkeeping in the runners"""
+    names = list(getattr(mod, "GEN", []))
+    roots = [f"Judge/J{prop}.v", f"Props/{prop}.v"]
+    pd = os.path.join(COQ, "Props")
+    roots += [f"Props/{f}" for f in sorted(os.listdir(pd)) if re.fullmatch(re.escape(prop) + r"[a-z]\.v", f)
+              and not os.path.exists(os.path.join(COQ, "Extract", "E" + f))]
+    seen = set()
+    for r in roots:
+        cone(r, seen)
+    for f in sorted(seen):
+        if f.startswith("Gen/") and f.endswith(".v"):
+            n = f[4:-2]
+            if n not in names:
+                names.append(n)
+    return names
+
+
 STATEMENT = re.compile(r"^\s*(?:Theorem|Lemma|Corollary|Example|Fact|Proposition|Remark)\s+([A-Za-z0-9_']+)", re.M)
 FORBIDDEN = re.compile(r"\b(Admitted|admit|Axiom|Axioms|Parameter|Parameters|Conjecture|Abort|Unset\s+Guard|bypass_check|"
                        r"Admit\s+Obligations|type-in-type|impredicative-set|Unset\s+Positivity|Unset\s+Universe)\b")
@@ -410,7 +430,7 @@ class Check:
     def build(self):
         import translate
         with BuildLock():
-            self.gen_notes = translate.regenerate(getattr(self.mod, "GEN", []), SRC)
+            self.gen_notes = translate.regenerate(gen_needed(self.prop, self.mod), SRC)
             ok, log = build_judge(self.prop)
             if not ok:
                 print(log[-3000:])
@@ -642,7 +662,7 @@ class Check:
             return 0 if props["ok"] else 1
         with BuildLock():
             import translate
-            translate.regenerate(getattr(self.mod, "GEN", []), SRC)
+            translate.regenerate(gen_needed(self.prop, self.mod), SRC)
             ok, log = build_judge(self.prop)
         ctx = Ctx(self.prop, "quick", self.seed, self.rng)
         case, hung = guarded_observe(self.mod, ctx, data["input"])
@@ -727,7 +747,7 @@ def main(argv):
         import translate
         mod = importlib.import_module(argv[0].lower())
         with BuildLock():
-            print("translate:", translate.regenerate(getattr(mod, "GEN", []), SRC))
+            print("translate:", translate.regenerate(gen_needed(argv[0], mod), SRC))
             ok, log = build_judge(argv[0])
             print("judge:", "ok" if ok else "FAILED\n" + log[-4000:])
             pr = build_props(argv[0])
